@@ -73,7 +73,7 @@ def histCmd (ws : List String) : String :=
       match Coll.new? ctor n sc with
       | none => "bad-op"
       | some c0 =>
-        let streaming := ctor.startsWith "streaming"
+        let streaming := ctor.startsWith "streaming" || ctor.startsWith "sample0-streaming"
         let st := ops.foldl (histStep pool streaming) { c := c0, w := { script := sc }, obs := [] }
         let final := match st.c.resolve with
           | some o => s!"[{wireList o}]"
